@@ -46,12 +46,13 @@ static Case gen_C14(const GenCtx &ctx) {
   int L = g::rng(1, std::max(4, maxlen * (g::cursize() + 10) / 110));
   std::vector<Cmd> v;
   for (int i = 0; i < L; i++) {
-    char k = g::wpick<char>({{30, 'I'}, {14, 'W'}, {10, 'F'}, {28, 'X'}, {3, 'B'}, {5, 'E'}, {6, 'O'}, {2, 'R'}, {2, 'Z'}, {2, 'V'}});
+    char k = g::wpick<char>({{30, 'I'}, {14, 'W'}, {3, 'w'}, {10, 'F'}, {28, 'X'}, {3, 'B'}, {5, 'E'}, {6, 'O'}, {2, 'R'}, {2, 'Z'}, {2, 'V'}});
     Cmd x{k, 0, 0, 0, 0};
     switch (k) {
     case 'I': x.a = g::rng(0, 7); x.b = g::rng(0, 7); break;                         // init ROWS[a] x COLS[b]
     case 'Z': x.a = g::rng(0, 2); x.b = g::rng(0, 7); break;                         // zero-area init
     case 'W': x.a = g::rng(0, 999); x.b = g::rng(0, 999); x.c = g::rng(0, 999); x.d = g::rng(0, 999); break;
+    case 'w': x.a = g::rng(0, 999); x.b = g::rng(0, 999); x.c = g::rng(0, 999); x.d = g::rng(0, 2); break;  // zero-area window
     case 'F': x.a = g::rng(0, 999); x.b = g::rng(0, 99999); break;                   // fill live[a] with pattern seed b
     case 'X': x.a = g::rng(0, 999); break;                                            // free live[a]
     case 'B': x.a = g::rng(0, 999); x.b = g::wpick<int>({{3, g::rng(1, 70)}, {2, g::rng(60, 200)}, {1, g::rng(900, 1150)}}); break;
@@ -101,6 +102,7 @@ static Verdict exec_C14(const Case &c) {
   auto check_contents = [&](int idx) {
     Live &l = pool[idx];
     if (!l.alive) return;
+    if (vf_nrows(l.M) <= 0 || vf_ncols(l.M) <= 0) return;  // zero-area: nothing to compare
     Mat got = read_mzd(l.M);
     Mat want = l.parent < 0 ? l.contents : view_of(l);
     if (got != want) fail("a live matrix no longer holds the contents last written to it (canary)");
@@ -223,6 +225,30 @@ static Verdict exec_C14(const Case &c) {
       if (o.empty()) break;
       int idx = new_window(o[x.a % o.size()], x.a / 7, x.b, x.c, x.d);
       check_contents(idx);
+      break;
+    }
+    case 'w': {
+      // a window with no columns and/or no rows: creating and freeing it must leave the parent's storage alone
+      auto o = owned_with_area();
+      if (o.empty()) break;
+      int pidx = o[x.a % o.size()];
+      Live &p = pool[pidx];
+      int pr = vf_nrows(p.M), pc = vf_ncols(p.M);
+      int lowr = x.b % pr, lowc = 64 * (x.c % ((pc + 63) / 64));
+      int highr = x.d == 1 ? lowr : lowr + 1 + (x.c % (pr - lowr));  // d == 1: no rows
+      int highc = x.d == 1 ? std::min(pc, lowc + 1) : lowc;           // d != 1: no columns
+      if (x.d == 2) highr = lowr;                                      // neither
+      mzd_t *W = mzd_init_window(p.M, lowr, lowc, highr, highc);
+      Live l;
+      l.M = W;
+      l.parent = pidx;
+      l.lowr = lowr;
+      l.lowc = lowc;
+      pool.push_back(l);
+      int idx = (int)pool.size() - 1;
+      live.push_back(idx);
+      pool[pidx].nwin++;
+      add_header(W, idx);
       break;
     }
     case 'F': {
